@@ -139,7 +139,19 @@ pub fn run_one(ctx: &mut Ctx, eq: &mut EqTable, cfg: &BatchConfig, idx: u64, sam
 pub fn run_one_guided(ctx: &mut Ctx, eq: &mut EqTable, cfg: &BatchConfig, idx: u64, sample: bool, corpus: &[CorpusEntry]) -> (RunResult, Option<Value>, u64, (Start, Vec<Candidate>)) {
     let mut rng = Rng::new(mix_seed(cfg.seed, idx));
     let faults = idx % 4 != 0;
-    let mut sw = Swarm::draw(&mut rng, &cfg.mix, faults);
+    // History is an input that must not leak into observables that do not mention it: one run in
+    // six of every property's batch uses the repetition-heavy workload of C05/C06 (shufflers,
+    // shuttlers, repeaters on sparse boards, long caps) instead of the property's own mix.
+    let borrowed_mix = !matches!(cfg.prop, 5 | 6 | 7 | 9) && idx % 6 == 5;
+    let rep_mix;
+    let mix = if borrowed_mix {
+        ctx.stats.inc("runs.repetition_workload");
+        rep_mix = crate::mix::mix_for(5);
+        &rep_mix
+    } else {
+        &cfg.mix
+    };
+    let mut sw = Swarm::draw(&mut rng, mix, faults);
     // coverage-guided part: half of the runs of later generations continue from a rare state
     let from_corpus = rng.chance(0.5);
     let corpus_pick = rng.next();
@@ -379,8 +391,16 @@ pub fn rule_for(prop: u32) -> &'static str {
 }
 
 /// runs a property's game batch, reports, writes the evidence part; returns the exit code
+/// true in the binary built from the copy of the engine whose hashing constants are narrowed to a
+/// few bits (fault F9, hash collisions; see tools/mask_constants.py and `run`)
+pub fn collide_build() -> bool {
+    std::env::var("VERIF_BUILD").as_deref() == Ok("collide")
+}
+
 pub fn cmd_game(prop: u32, tier: &str, seed: u64, runs_override: Option<u64>, workers: usize, out: &str, replay_dir: &str, digests: Option<String>, known: &KnownFindings) -> i32 {
     let (q, t) = runs_for(prop);
+    // the hash-collision build runs a third of the budget (it is an additional part)
+    let (q, t) = if collide_build() { ((q / 3).max(4_000), (t / 3).max(4_000)) } else { (q, t) };
     let runs = runs_override.unwrap_or(if tier == "thorough" { t } else { q });
     let cfg = BatchConfig { prop, own: p(prop), tier: tier.to_string(), seed, runs, workers, mix: mix_for(prop), wall_cap_s: if tier == "thorough" { 1500.0 } else { 150.0 }, digests: digests.clone() };
     let r = run_batch(&cfg);
@@ -406,7 +426,7 @@ pub fn finish_batch(cfg: &BatchConfig, r: BatchResult, out: &str, replay_dir: &s
     if let Some(f) = r.failures.first() {
         // minimise, write the replay file, confirm it in a fresh process
         let min = if std::env::var("VERIF_NO_MINIMISE").is_ok() { Failure { run: f.run, prop: f.prop, monitor: f.monitor.clone(), detail: f.detail.clone(), start: f.start.clone(), ops: f.ops.clone(), op_index: f.op_index } } else { minimise(f, cfg.own) };
-        let path = format!("{}/{}-{}-{}.json", replay_dir, prop_name(prop), cfg.seed, f.run);
+        let path = format!("{}/{}-{}-{}{}.json", replay_dir, prop_name(prop), cfg.seed, f.run, if collide_build() { "-collide" } else { "" });
         let file = ReplayFile::from_failure(&min, cfg.seed, "game");
         if let Some(k) = known.matches_open(prop, &min.monitor, &min.detail) {
             known_lines.push(format!("KNOWN-FINDING: property={} {}", prop_name(prop), k));
@@ -446,11 +466,11 @@ pub fn finish_batch(cfg: &BatchConfig, r: BatchResult, out: &str, replay_dir: &s
         }
     }
     let part = json!({
-        "part": "game",
+        "part": if collide_build() { "game_hash_collisions" } else { "game" },
         "evaluations": r.evals,
         "distinct_nontrivial": r.distinct.len(),
         "distinct_capped": r.capped,
-        "rule": format!("{}; runs are executed in deterministic coverage-guided generations where applicable, with fan-out, exhaustive turn expansion and forced repetition cycles as explicit operations (DESIGN.md 12.1)", rule_for(prop)),
+        "rule": format!("{}{}; runs are executed in deterministic coverage-guided generations where applicable, with fan-out, exhaustive turn expansion and forced repetition cycles as explicit operations (DESIGN.md 12.1)", if collide_build() { "FAULT hash collisions: the engine is built from a copy of the working tree whose hashing constants keep only their low 12 bits, so different positions hash alike all the time; this property does not mention hashes or repetition, so it must hold all the same. " } else { "" }, rule_for(prop)),
         "samples": r.samples,
         "runs": r.runs_done,
         "runs_planned": cfg.runs,
@@ -476,7 +496,7 @@ pub fn finish_batch(cfg: &BatchConfig, r: BatchResult, out: &str, replay_dir: &s
         eprintln!("HARNESS-ERROR: cannot write {}: {}", out, e);
         return 2;
     }
-    println!("{} game part: {} runs, {} steps, {} own-monitor evaluations, {} distinct non-trivial, {} foreign aborts, {:.1}s", prop_name(prop), r.runs_done, steps, r.evals, r.distinct.len(), r.foreign, r.wall_s);
+    println!("{} game part{}: {} runs, {} steps, {} own-monitor evaluations, {} distinct non-trivial, {} foreign aborts, {:.1}s", prop_name(prop), if collide_build() { " (hash collisions injected)" } else { "" }, r.runs_done, steps, r.evals, r.distinct.len(), r.foreign, r.wall_s);
     exit
 }
 
